@@ -1223,7 +1223,7 @@ def gen_tf(rng):
     k = rng.choice(["tolist", "tolist", "todict", "todict", "toframe", "toframe", "fromlist"])
     via = rng.choice(["function", "class"])
     if k == "tolist":
-        n = rng.choice([0, 1, 2, 3, 3, 4, 5, 6])
+        n = rng.choice([0, 1, 2, 3, 3, 4, 5, 6, 11, 13])
         names = [f"item_{i}" for i in range(n)]
         return {"kind": k, "n": n, "via": via, "ops": gen_ops(rng, names, {}, names)}
     if k == "todict":
@@ -1247,7 +1247,7 @@ def gen_tf(rng):
             req = [x for x, _, d in full if d == ["nd"]]
         return {"kind": k, "spec": spec, "via": via, "ops": gen_ops(rng, list(dict.fromkeys(names)), atoms, req)}
     if k == "toframe":
-        n = rng.choice([0, 1, 2, 2, 3, 3, 4, 5, 6])
+        n = rng.choice([0, 1, 2, 2, 3, 3, 4, 5, 6, 11, 12])
         names = [f"row_{i}" for i in range(n)]
         cols = rng.sample(["a", "b", "c", "d"], rng.choice([1, 2, 2, 3]))
 
